@@ -94,3 +94,35 @@ Example C04_closed_window_witness :
    [Callback BeforeRebalanceStart; Callback BeforeStreamStop; CloseReq 0; Callback AfterStreamStop; Callback AfterRebalanceStart];
    []].
 Proof. vm_compute. reflexivity. Qed.
+
+(* ---- setOffset over the containers it really uses ----
+   Model/Stream.v keeps the tracked positions and the dirty marks as total functions; the code keeps them in two
+   wrapper.ConcurrentSwissMap containers and updates them with Load / Store / StoreIf (Model/SwissMap.v, tied to the real
+   container by Corr/CorrSwissMap.v).  For every state of the open stream, every pair of containers that represent its two
+   functions, every assigned vBucket, position and dirty flag: the code's sequence of container operations yields
+   containers that represent the functions of set_offset's result, TrackOffset is called exactly when the model says so,
+   and the containers keep one entry per key. *)
+From Verif Require Import Model.SwissMap Proofs.SwissMapProofs Proofs.ContainerStream.
+
+Theorem C04_setoffset_on_container : forall s offs dirty vb o d,
+  s_obs_nil s = false -> in_range (s_range s) vb = true ->
+  (forall k, sm_load offs k = s_offs s k) -> (forall k, sm_load dirty k = s_dirty s k) ->
+  (forall k, sm_load (fst (fst (c_set_offset offs dirty vb o d))) k = s_offs (fst (set_offset s vb o d)) k) /\
+  (forall k, sm_load (snd (fst (c_set_offset offs dirty vb o d))) k = s_dirty (fst (set_offset s vb o d)) k) /\
+  snd (set_offset s vb o d) = (if snd (c_set_offset offs dirty vb o d) then [Track vb o] else []).
+Proof. exact c_set_offset_abs. Qed.
+Print Assumptions C04_setoffset_on_container.
+
+Theorem C04_setoffset_keeps_containers : forall (offs : smap_of offset) (dirty : smap_of bool) vb o d,
+  NoDup (map fst offs) -> NoDup (map fst dirty) ->
+  NoDup (map fst (fst (fst (c_set_offset offs dirty vb o d)))) /\ NoDup (map fst (snd (fst (c_set_offset offs dirty vb o d)))).
+Proof. exact c_set_offset_inv. Qed.
+Print Assumptions C04_setoffset_keeps_containers.
+
+(* non-vacuity: a later position replaces the entry and marks it, an earlier one changes nothing and is not tracked *)
+Example C04_container_example :
+  let o n := MkO 77 n 1 9 18446744073709551615 in
+  c_set_offset [(0, o 5)] [(0, false)] 0 (o 7) true = ([(0, o 7)], [(0, true)], true) /\
+  c_set_offset [(0, o 5)] [(0, false)] 0 (o 3) true = ([(0, o 5)], [(0, false)], false) /\
+  c_set_offset [(0, o 5)] [(0, true)] 1 (o 2) false = ([(1, o 2); (0, o 5)], [(0, true)], true).
+Proof. vm_compute. repeat split; reflexivity. Qed.
